@@ -896,11 +896,15 @@ where
         let (dropped_tx, mut dropped_rx) = oneshot::channel();
 
         // Build initial state.
+        // The initial contents count towards the size limit.
+        let initial = self.take_initial().unwrap_or_default();
+        let error = if initial.len() > max_size { Some(RecvError::MaxSizeExceeded(max_size)) } else { None };
+        let failed = error.is_some();
         let inner = Arc::new(RwLock::new(Some(MirroredVecInner {
-            v: self.take_initial().unwrap_or_default(),
+            v: initial,
             complete: self.is_complete(),
             done: self.is_done() && self.is_complete(),
-            error: None,
+            error,
             max_size,
         })));
         let inner_task = inner.clone();
@@ -909,6 +913,10 @@ where
         let tx_send = tx.clone();
         exec::spawn(
             async move {
+                if failed {
+                    return;
+                }
+
                 loop {
                     let event = tokio::select! {
                         event = self.recv() => event,
